@@ -44,7 +44,7 @@ def check(ctx):
     expect_fn(ctx, "C07.3", "same-key/contains", "TypeSubstitutes::contains", "(Not(slice::is_empty(P1))&&HashMap::contains_key(P0.substitutes,P1))",
               "`contains` = non-empty key present in the substitute map", "scale_typegen")
     expect_fn(ctx, "C07.3", "same-key/lookup", "TypeSubstitutes::for_path_with_params",
-              "Option::map(HashMap::get(P0.substitutes,P1),|1|{for_path_with_params::replace_params(C1_0.path,P2,C1_0.param_mapping,P3)})",
+              "Some(for_path_with_params::replace_params(HashMap::get(P0.substitutes,P1)?.path,P2,HashMap::get(P0.substitutes,P1)?.param_mapping,P3))",
               "look-up in the same map with the same key; the rule's own path and mapping are used", "scale_typegen")
     # argument mapping
     S_ = "P2@TypeParamMapping::Specified.0"
